@@ -260,11 +260,18 @@ def _r345(repo, L, ia, find: Func):
     whiles = [n for n in loops if isinstance(n, ast.While)]
     fors = [n for n in loops if isinstance(n, ast.For)]
     # ---- R5a binary search: first while whose test compares two names
-    bs_loop = next((w for w in whiles if isinstance(w.test, ast.Compare) and isinstance(w.test.left, ast.Name) and isinstance(w.test.comparators[0], ast.Name) and not any(isinstance(x, ast.Subscript) for x in ast.walk(w.test))), None)
+    def window_test(w):
+        for cj in _conjuncts(w.test):
+            if isinstance(cj, ast.Compare) and len(cj.ops) == 1 and isinstance(cj.left, ast.Name) and isinstance(cj.comparators[0], ast.Name):
+                return cj
+        return None
+
+    bs_loop = next((w for w in whiles if window_test(w) is not None and not any(isinstance(x, ast.Subscript) for x in ast.walk(w.test))), None)
     if bs_loop is None:
         raise AnalysisError("binary-search loop not recognised in find_overlaps")
-    lo_v, hi_v = bs_loop.test.left.id, bs_loop.test.comparators[0].id
-    ok_test = isinstance(bs_loop.test.ops[0], ast.Lt)
+    wt_ = window_test(bs_loop)
+    lo_v, hi_v = wt_.left.id, wt_.comparators[0].id
+    ok_test = isinstance(wt_.ops[0], ast.Lt)
     L.check(ok_test, "R5", f"{find.short}:bsearch-test", f"search continues while {lo_v} < {hi_v}", f"search loop test is '{norm(bs_loop.test)}' (half-open window needs {lo_v} < {hi_v})", find.loc(bs_loop))
     # initial window
     try:
@@ -337,6 +344,11 @@ def _r345(repo, L, ia, find: Func):
                     okk, why = False, f"row m accepted as overlapping under {facts}, expected both not({left_of}) and not({right_of})"
         L.check(okk, "R5", inst, "left-of / right-of / overlapping tests are exact one-sided disjointness", why, find.loc(bs_loop))
 
+    # no row is accepted before it has been compared with the bait: the hit variable starts as None
+    if found_var is not None:
+        init_v = st1.env.get(found_var)
+        ok_init_f = isinstance(init_v, Const) and init_v.v is None
+        L.check(ok_init_f, "R5", f"{find.short}:hit-init", "hit index starts as None (every hit comes out of the comparison)", f"the hit index '{found_var}' starts as {init_v!r}: a row can be returned without ever being compared with the query (e.g. a single-row scaffold queried beyond its end)", find.loc(bs_loop), witness={"scaffold": "[frag(1..100)]", "query": "200..300", "expected": None})
     # not found => None
     after_bs = body[body.index(bs_loop) + 1:]
     # ---- R5b extension loops
